@@ -51,6 +51,30 @@ def judge(ctx, case, cfgd, cfg, T, inp, origin):
     except Exception as e:  # noqa: BLE001
         viol("dump-raises", f"dumps-of-parsed-value-raises:{type(e).__name__}", error=lib.exc_sig(e))
         return
+    # every way of dumping gives these bytes: instance and class level, to a fresh stream and behind / onto other bytes
+    # (at a multiple of 16: an aligned structure pads on the absolute position), and again
+    try:
+        import io
+
+        forms = {"again": obj.dumps(), "class-dumps": T.dumps(obj), "bytes()": bytes(obj)}
+        s1 = io.BytesIO()
+        n1 = obj.write(s1)
+        forms["write"] = s1.getvalue()
+        held = bytes([0xEE]) * (32 + len(d) + 8)
+        s2 = io.BytesIO(held)
+        s2.seek(32)
+        n2 = T.write(s2, obj)
+        forms["class-write-onto-held-bytes"] = s2.getvalue()[32:32 + len(d)]
+        ok_frame = s2.getvalue()[:32] == held[:32] and s2.getvalue()[32 + len(d):] == held[32 + len(d):] and s2.tell() == 32 + len(d)
+        ctx.event("dump_forms_compared")
+        bad = sorted(k for k, v in forms.items() if v != d)
+        if bad or n1 != len(d) or n2 != len(d) or not ok_frame:
+            viol("dump-forms", "ways-of-dumping-one-value-disagree", dump=d, differing=bad, returned=[n1, n2], frame_intact=ok_frame,
+                 others={k: forms[k].hex() for k in bad[:3]})
+            return
+    except Exception as e:  # noqa: BLE001
+        viol("dump-forms", f"a-way-of-dumping-raises:{type(e).__name__}", dump=d, error=lib.exc_sig(e))
+        return
     try:
         dm, mask, k1 = model.dump_full(top, vL, cfg)
     except model.ModelValueError as e:
